@@ -480,6 +480,28 @@ func (in *Interp) roundF(e *sym.Term, bits int) *sym.Term {
 			}
 		}
 	}
+	// int -> float of an integer whose interval lies inside one binade above the mantissa: the
+	// correctly rounded result (round half to even) is an exact integer expression
+	if e.Op == sym.OToReal {
+		if x := e.Args[0]; x.Lo != nil && x.Hi != nil && x.Lo.Sign() > 0 {
+			mant := 53
+			if bits == 32 {
+				mant = 24
+			}
+			if k := x.Lo.BitLen(); k == x.Hi.BitLen() && k > mant && k-mant <= 40 {
+				ulp := B.Int(pow2(k - mant))
+				half := B.Int(pow2(k - mant - 1))
+				q := B.Div(x, ulp)
+				rem := B.Mod(x, ulp)
+				odd := B.Eq(B.Mod(q, B.Int64(2)), B.Int64(1))
+				up := B.Or(B.Lt(half, rem), B.And(B.Eq(rem, half), odd))
+				rq := B.Ite(up, B.Add(q, B.Int64(1)), q)
+				res := B.ToReal(B.Mul(rq, ulp))
+				in.roundings = append(in.roundings, rounding{e, res, bits, in.curSite()})
+				return res
+			}
+		}
+	}
 	r := in.freshVar("rnd", sym.SReal, nil, nil)
 	u := B.Real(ulpRel(bits))
 	var ae *sym.Term
